@@ -177,6 +177,7 @@ func (ex *exec) run() {
 			}
 		}
 		vc.probe("vacuity.requires", "true", "preconditions and type invariants are satisfiable")
+		ex.coverObligations()
 		if vc.contract.HasReads {
 			ls, err := ex.evalLocSet(env, vc.contract.Reads)
 			if err != nil {
@@ -761,8 +762,7 @@ func (ex *exec) structRefField(ref string, structT types.Type, idx int) *Loc {
 	ft := st.Field(idx).Type()
 	if _, nested := ft.Underlying().(*types.Struct); nested {
 		// interior struct: address function; the result is a "pointer to the nested struct"
-		fa := vc.fieldAddrFn(structT, idx)
-		return &Loc{kind: locDeref, heap: "", ref: "(" + fa + " " + ref + ")", rootTyp: ft, typ: ft}
+		return &Loc{kind: locDeref, heap: "", ref: vc.interiorRef(structT, idx, ref), rootTyp: ft, typ: ft}
 	}
 	hi := vc.fieldHeap(structT, idx)
 	return &Loc{kind: locField, heap: hi.name, ref: ref, rootTyp: ft, typ: ft}
@@ -1972,4 +1972,65 @@ func (ex *exec) updateDirections(li *loopInfo, a *ssa.Alloc) (up, down bool) {
 		}
 	}
 	return
+}
+
+// coverObligations: one obligation per field of a struct that a contract declares to cover.
+func (ex *exec) coverObligations() {
+	vc := ex.vc
+	fc := vc.contract
+	for _, cs := range fc.Covers {
+		t, err := vc.eng.resolveType(cs.Type, fc.Pkg)
+		if err != nil {
+			ex.bail("covers: %v", err)
+		}
+		st, ok := t.Underlying().(*types.Struct)
+		if !ok {
+			ex.bail("covers: %s is not a struct", cs.Type)
+		}
+		var fields []string
+		var walk func(s *types.Struct)
+		walk = func(s *types.Struct) {
+			for i := 0; i < s.NumFields(); i++ {
+				f := s.Field(i)
+				if inner, ok := f.Type().Underlying().(*types.Struct); ok && f.Embedded() {
+					walk(inner)
+					continue
+				}
+				fields = append(fields, f.Name())
+			}
+		}
+		walk(st)
+		except := map[string]bool{}
+		for _, e := range cs.Except {
+			except[e] = true
+		}
+		for _, f := range fields {
+			if except[f] {
+				vc.eng.noteAssumption(fmt.Sprintf("field %s.%s declared transient (not persisted) in the contract of %s", cs.Type, f, vc.fkey))
+				continue
+			}
+			mentioned := false
+			needle := cs.Prefix + "." + f
+			for _, c := range fc.Ensures {
+				txt := c.Text
+				for idx := strings.Index(txt, needle); idx >= 0; {
+					end := idx + len(needle)
+					if end >= len(txt) || !(txt[end] == '_' || txt[end] >= 'a' && txt[end] <= 'z' || txt[end] >= 'A' && txt[end] <= 'Z' || txt[end] >= '0' && txt[end] <= '9') {
+						mentioned = true
+						break
+					}
+					nxt := strings.Index(txt[end:], needle)
+					if nxt < 0 {
+						break
+					}
+					idx = end + nxt
+				}
+			}
+			goal := "false"
+			if mentioned {
+				goal = "true"
+			}
+			vc.oblige("covers["+cs.Type+"."+f+"]", "ensures", "true", goal, "every field of "+cs.Type+" is constrained by a postcondition ("+needle+")", "")
+		}
+	}
 }
